@@ -1229,7 +1229,7 @@ func vc16ParseCase(op string) (c vc16Case, ok bool) {
 
 func vc16Generate() []vc16Case {
 	r := vh.NewRng(vh.Seed() + 1600)
-	n := vh.Budget(1, 6)
+	n := vh.Budget(1, 14)
 	var cs []vc16Case
 	for i := 0; i < n; i++ {
 		interval := uint64(4 + r.Intn(5))
